@@ -161,7 +161,7 @@ def tasks(tier):
         except KeyError:
             continue
         ts.append(Task('causal.' + name, mk_causal_task(name, qual), functions=[qual], extra=dict(task_timeout_s=120)))
-        ts.append(Task('native.' + name, mk_native_task(name), extra=dict(bounded='native: 400 / 1600 candles, random and tied series, prefixes 61 / 333 / 1200',
+        ts.append(Task('native.' + name, mk_native_task(name), extra=dict(bounded='native: 400 / 1600 candles, random and tied series, prefixes 61 / 333 / 1200; 96 candles with zero-volume minutes',
                                                                            task_timeout_s=300)))
         if tier == 'quick' and name in HEAVY:
             continue        # terms of these kernels need minutes: thorough tier only (not under contract in the quick tier)
